@@ -609,6 +609,8 @@ impl SvgElement {
             ));
         }
         if surround.is_none() && inside.is_none() {
+            // `margin` only has a meaning together with them; it is not an SVG attribute
+            self.pop_attr("margin");
             return Ok(());
         }
 
@@ -645,6 +647,12 @@ impl SvgElement {
         } else {
             BoundingBox::intersection(bbox_list)
         };
+        if bbox.is_none() {
+            // nothing listed, or the listed areas have no point in common
+            return Err(SvgdxError::InvalidData(format!(
+                "No area to place an element {contain_str} '{ref_list}'"
+            )));
+        }
 
         if let Some(margin) = self.get_attr("margin") {
             let margin: TrblLength = margin.parse()?;
